@@ -9,23 +9,25 @@
 #include <pterms/PtStructs.h>
 #include <smtsolvers/TheoryInterpolator.h>
 
+#include <atomic>
 #include <iostream>
 
 namespace opensmt {
 class ArithLogic;
 
 struct DecomposedStatistics {
-    unsigned int decompositionOpportunities = 0;
-    unsigned int decomposedItps = 0;
-    unsigned int nonTrivialBasis = 0;
-    unsigned int standAloneIneq = 0;
+    // one object is shared by all interpolators of the process
+    std::atomic<unsigned int> decompositionOpportunities{0};
+    std::atomic<unsigned int> decomposedItps{0};
+    std::atomic<unsigned int> nonTrivialBasis{0};
+    std::atomic<unsigned int> standAloneIneq{0};
 
     void printStatistics(std::ostream & out) const {
         out << "\n###Decomposed statistics###\n"
-            << "Total number of oportunities for decomposition: " << decompositionOpportunities << '\n'
-            << "Total number of decomposed interpolants: " << decomposedItps << '\n'
-            << "Out of total number of decomposed were (partly) trivially decomposable: " << standAloneIneq << '\n'
-            << "Out of total number of decomposed had nontrivial basis of null space: " << nonTrivialBasis << '\n'
+            << "Total number of oportunities for decomposition: " << decompositionOpportunities.load() << '\n'
+            << "Total number of decomposed interpolants: " << decomposedItps.load() << '\n'
+            << "Out of total number of decomposed were (partly) trivially decomposable: " << standAloneIneq.load() << '\n'
+            << "Out of total number of decomposed had nontrivial basis of null space: " << nonTrivialBasis.load() << '\n'
             << "###########################\n"
             << std::endl;
     }
